@@ -179,6 +179,11 @@ def run(ctx):
         stats["family"][fam] = stats["family"].get(fam, 0) + 1
         x["events"] = x.get("events") or []
         x["remote_keys"] = x.get("remote_keys") or []
+        x["dangling"] = x.get("dangling") or []
+        x["steps"] = x.get("steps") or []
+        for st in x["steps"]:
+            st["dangling"] = st.get("dangling") or []
+            st["results"] = st.get("results") or []
         stats["events"] += len(x["events"])
         for o in x.get("remote_ops") or []:
             if o.get("fault"):
